@@ -13,7 +13,7 @@ class C03(rt.RoundTrip):
     assumptions = ("C03 constrains explicit defaults only: a parameter without default may come back without one, or "
                    "with None / the zero value of its type",
                    "absent type may come back absent / object / type name of the default")
-    policy = {"absent_default": ("absent", "none", "zero"), "ret_absent_default": ("absent",), "summary_exact": True}
+    policy = {"absent_default": ("absent", "none", "zero"), "ret_absent_default": ("absent",), "summary_exact": True, "none_for_any_type": True, "default_sentence": "stripped"}
 
     def all_options(self, indents):
         return [{"ft": ft, "inline": inl, "kwonly": kw, "indent": ind, "edd": False, "ww": True}
@@ -41,7 +41,7 @@ class C03(rt.RoundTrip):
         qa = qa + [dict(o, septab=True) for o in qa[:2]]
         qb = qb + [dict(qb[1], septab=True)]
         return core.Concat(rt.OptSpace(al.S_A(), qa), rt.OptSpace(al.S_B(), qb), rt.OptSpace(al.S_D(), full),
-                           rt.OptSpace(al.S_B((2,)), qn))
+                           rt.OptSpace(al.S_B((2,)), qn), rt.OptSpace(al.S_W(), full))
 
     def extra_sites(self, case, atoms, ret, text, back, cf):
         want = case["opts"]["ft"]
